@@ -330,28 +330,41 @@ impl RtpsReaderProxy {
       );
   }
 
-  pub fn mark_frags_requested(&mut self, seq_num: SequenceNumber, frag_nums: &FragmentNumberSet) {
+  // Mark the fragments named in a NACKFRAG as requested.
+  // `frag_count` is the number of fragments the sample actually has: only
+  // fragment numbers 1..=frag_count can be served, anything else is ignored.
+  pub fn mark_frags_requested(
+    &mut self,
+    seq_num: SequenceNumber,
+    frag_nums: &FragmentNumberSet,
+    frag_count: u32,
+  ) {
+    let frag_count = frag_count as usize;
+    let mut requested = frag_nums
+      .iter()
+      .map(usize::from)
+      .filter(|f| (1..=frag_count).contains(f))
+      .peekable();
+
+    if requested.peek().is_none() {
+      warn!(
+        "mark_frags_requested: No valid fragment numbers in NackFrag. reader={:?} SN={:?}",
+        self.remote_reader_guid, seq_num
+      );
+      return;
+    }
+
     let req_set = self
       .frags_requested
       .entry(seq_num)
-      .or_insert_with(|| BitVec::with_capacity(64)); // default capacity out of hat
-
-    if let Some(max_fn_requested) = req_set.iter().next_back() {
-      // allocate more space if needed
-      let max_fn_requested = usize::from(max_fn_requested);
-      if max_fn_requested > req_set.len() {
-        let growth_need = max_fn_requested - req_set.len();
-        req_set.grow(growth_need, false);
-      }
-      for f in frag_nums.iter() {
-        // -1 because FragmentNumbers start at 1
-        req_set.set(usize::from(f) - 1, true);
-      }
-    } else {
-      warn!(
-        "mark_frags_requested: Empty set in NackFrag??? reader={:?} SN={:?}",
-        self.remote_reader_guid, seq_num
-      );
+      .or_insert_with(|| BitVec::from_elem(frag_count, false));
+    if req_set.len() < frag_count {
+      let growth_need = frag_count - req_set.len();
+      req_set.grow(growth_need, false);
+    }
+    for f in requested {
+      // -1 because FragmentNumbers start at 1
+      req_set.set(f - 1, true);
     }
   }
 
